@@ -11,6 +11,7 @@ from .. import core, family
 
 SPEC = os.path.join(core.VERIF, "specs", "UtxoScan")
 DRIVER = os.path.join(core.VERIF, "harness", "overlay", "neutrino", "zz_verif_utxoscan_test.go")
+DRIVER_FREE = os.path.join(core.VERIF, "harness", "overlay", "neutrino", "zz_verif_utxoscan_free_test.go")
 PKG = core.REPO
 
 READY = False
@@ -137,22 +138,22 @@ def config(tier, seed):
     rng = random.Random(seed * 7919 + 17)
     if tier == "quick":
         return [dict(name="q3", chains=[CH3], cat=CAT3, best0s="{2, 3}", MaxReq=2, MaxFail=1,
-                     AllowStop=True, FalsePos=True),
+                     AllowStop=True, FalsePos=True, free=1500),
                 # three requests (one running, one deferred, one queued behind): small catalogue, no faults
                 dict(name="q3b", chains=[CH3], cat=[(1, 0, 1), (1, 1, 2), (1, 0, 3), (2, 0, 2)], best0s="{2}",
-                     MaxReq=3, MaxFail=0, AllowStop=False, FalsePos=False)]
+                     MaxReq=3, MaxFail=0, AllowStop=False, FalsePos=False, free=1500)]
     rc, rcat = random_chain(rng, 4)
     return [
         dict(name="t3", chains=[CH3], cat=CAT3, best0s="{2, 3}", MaxReq=3, MaxFail=1,
-             AllowStop=False, FalsePos=False),
+             AllowStop=False, FalsePos=False, free=8000),
         dict(name="t3s", chains=[CH3], cat=CAT3, best0s="{1, 2, 3}", MaxReq=2, MaxFail=2,
-             AllowStop=True, FalsePos=True),
+             AllowStop=True, FalsePos=True, free=4000),
         dict(name="t4", chains=[CH4], cat=CAT4, best0s="{3, 4}", MaxReq=2, MaxFail=2,
-             AllowStop=True, FalsePos=True),
+             AllowStop=True, FalsePos=True, free=4000),
         dict(name="t5", chains=[CH5], cat=CAT5, best0s="{4, 5}", MaxReq=2, MaxFail=1,
-             AllowStop=True, FalsePos=False),
+             AllowStop=True, FalsePos=False, free=4000),
         dict(name="rnd", chains=[rc], cat=rcat, best0s="{3, 4}", MaxReq=2, MaxFail=1,
-             AllowStop=True, FalsePos=False),
+             AllowStop=True, FalsePos=False, free=3000),
     ]
 
 
@@ -282,6 +283,86 @@ def replay_and_judge(prop_id, acc, binary, gen, chains, tag, pf, sc, max_lines=1
     return dn
 
 
+def free_run(prop_id, acc, binary, gen, cfg, g, seed, sc):
+    """Implementation -> specification: n free-running executions of the real scanner (real goroutine
+    scheduling, seeded think times / failures), linearised by the driver at the code's critical
+    sections.  Each must be a path of the TLC state graph g with equal observables (else drift), and
+    TLC judges UtxoScanProps on it (verdict)."""
+    import re, subprocess
+    n = cfg.get("free", 0)
+    if not n:
+        return dict(executions=0)
+    of = os.path.join(sc, "free-%s.ndjson" % cfg["name"])
+    fc = dict(n=n, seed=seed, cid=1, cat=[list(c) for c in cfg["cat"]],
+              best0s=[int(x) for x in re.findall(r"\d+", cfg["best0s"])], max_req=cfg["MaxReq"],
+              max_fail=cfg["MaxFail"], false_pos=cfg["FalsePos"], max_gates=60)
+    env = core.go_env()
+    env.update({"VERIF_OUT": of, "VERIF_UX_FREE": json.dumps(fc), "VERIF_UX_CHAINS": json.dumps(cfg["chains"])})
+    p = subprocess.run([binary, "-test.run", "^TestVerifUtxoScanFree$", "-test.count=1", "-test.timeout", "3600s"],
+                       cwd=sc, env=env, stdout=subprocess.PIPE, stderr=subprocess.STDOUT, text=True)
+    if p.returncode != 0 or not os.path.exists(of):
+        raise core.MachineryError("free-running driver failed rc=%d:\n%s" % (p.returncode, p.stdout[-6000:]))
+    traces = [json.loads(l) for l in open(of)]
+    os.remove(of)
+    idx = {}
+    for ei, (f, a, t, o, v) in enumerate(g.edges):
+        idx[(f, json.dumps(a, sort_keys=True))] = ei
+    inits = {json.dumps(o, sort_keys=True): nn for nn, o in g.inits}
+    n_drift = n_steps = 0
+    seqs = set()
+    for tr in traces:
+        tr["id"] = "free-%s" % tr["id"]
+        if tr.get("error"):
+            continue
+        seqs.add(hash(json.dumps([s["act"] for s in tr["steps"]])))
+        node = inits.get(json.dumps(tr["init_obs"], sort_keys=True))
+        what = None
+        if node is None:
+            what, i = "initial observables are not an initial state of the model", -1
+        else:
+            for i, s_ in enumerate(tr["steps"]):
+                ei = idx.get((node, json.dumps(s_["act"], sort_keys=True)))
+                if ei is None:
+                    what = "the model has no such transition here"
+                    break
+                if g.edges[ei][3] != s_["obs"]:
+                    what = "observables differ: model %s" % json.dumps(g.edges[ei][3])
+                    break
+                node = g.edges[ei][2]
+                n_steps += 1
+        if what:
+            n_drift += 1
+            if len(acc.drift_samples) < 8:
+                acc.drift_samples.append({"trace": "%s/%s" % (cfg["name"], tr["id"]), "step": i + 1, "what": what,
+                                          "labels": [label(x["act"]) for x in tr["steps"][:i + 1]],
+                                          "code_obs": tr["steps"][i]["obs"] if i >= 0 else tr["init_obs"]})
+    chains = cfg["chains"]
+    good = [t for t in traces if not t.get("error")]
+    for t in good:
+        t.pop("chains", None)
+    v = family.judge([SPEC, gen], "UtxoScanProps", PROPS[prop_id], prop_id, good, label=label)
+    for x in v["violations"]:
+        x["trace"] = "%s/%s" % (cfg["name"], x["trace"])
+        x["observed"]["chains"] = chains
+    acc.verdict["violations"] += v["violations"]
+    for k in ("n_lines", "wall", "raw"):
+        acc.verdict[k] += v[k]
+    for k, x in v["known"].items():
+        if k in acc.verdict["known"]:
+            acc.verdict["known"][k]["count"] += x["count"]
+        else:
+            acc.verdict["known"][k] = x
+    acc.drift_steps += n_steps
+    acc.drift_n += n_drift
+    for t in traces:
+        if t.get("error"):
+            acc.light.append({"id": t["id"], "steps": [], "error": "free run: " + t["error"]})
+        else:
+            acc.light.append({"id": t["id"], "steps": [None] * len(t["steps"])})
+    return dict(executions=len(traces), distinct_action_sequences=len(seqs), steps_matched_in_model_graph=n_steps,
+                drift=n_drift, errors=sum(1 for t in traces if t.get("error")))
+
+
 class _G:
     pass
 
@@ -291,7 +372,7 @@ def run(prop_id, tier, seed, replay=None):
     rng = random.Random(seed)
     sc = core.scratch("ux")
     try:
-        binary = family.build_overlay_test(PKG, [DRIVER], os.path.join(sc, "neutrino.test"))
+        binary = family.build_overlay_test(PKG, [DRIVER, DRIVER_FREE], os.path.join(sc, "neutrino.test"))
         acc = _Acc()
         tot = _G()
         tot.generated = tot.distinct = tot.depth = 0
@@ -321,13 +402,17 @@ def run(prop_id, tier, seed, replay=None):
             pf = os.path.join(sc, "paths-%s.ndjson" % cfg["name"])
             core.write_paths(g, paths, pf)
             ne, nv = len(g.edges), sum(1 for e in g.edges if e[4])
+            t_rep = time.time()
+            fr = free_run(prop_id, acc, binary, gen, cfg, g, seed, sc)
+            t_free = time.time() - t_rep
             del g
             t_rep = time.time()
             h0, p0 = acc.hung, acc.panics
             dn = replay_and_judge(prop_id, acc, binary, gen, cfg["chains"], cfg["name"], pf, sc)
             os.remove(pf)
-            print("[%s] tlc %.0fs states %d edges %d paths %d replay+judge %.0fs" % (
-                cfg["name"], tlc.wall, tlc.distinct, ne, len(paths), time.time() - t_rep), file=sys.stderr)
+            print("[%s] tlc %.0fs states %d edges %d paths %d replay+judge %.0fs free-running %d in %.0fs" % (
+                cfg["name"], tlc.wall, tlc.distinct, ne, len(paths), time.time() - t_rep,
+                fr["executions"], t_free), file=sys.stderr)
             tot.generated += tlc.generated
             tot.distinct += tlc.distinct
             tot.depth = max(tot.depth, tlc.depth)
@@ -341,7 +426,8 @@ def run(prop_id, tier, seed, replay=None):
                             "chains": cfg["chains"], "catalogue": [list(c) for c in cfg["cat"]],
                             "states": tlc.distinct, "edges": ne, "tlc_wall_s": round(tlc.wall, 1),
                             "paths": len(paths), "drift_paths": dn, "hung_steps": acc.hung - h0,
-                            "panic_steps": acc.panics - p0, "model_violating_edges": nv})
+                            "panic_steps": acc.panics - p0, "model_violating_edges": nv,
+                            "free_running": fr})
         g = _G()
         g.edges = [(0, 0, 0, 0, i < n_viol_edges) for i in range(n_edges)]   # counts only, for family.finish
         return family.finish(prop_id, tier, seed, t0, tot, g, all_paths, acc.light, acc.verdict,
